@@ -504,6 +504,7 @@ CLASSES = {
     'N7awkward14BitMaskedArrayE': ('BIT', '_ZNK7awkward14BitMaskedArray6lengthEv', 'bitmasked'),
     'N7awkward11RecordArrayE': ('REC', '_ZNK7awkward11RecordArray6lengthEv', 'record'),
     'N7awkward12UnionArrayOfIalEE': ('UNI', '_ZNK7awkward12UnionArrayOfIalE6lengthEv', 'union'),
+    'N7awkward12UnionArrayOfIaiEE': ('UNI', '_ZNK7awkward12UnionArrayOfIaiE6lengthEv', 'union'), 'N7awkward12UnionArrayOfIajEE': ('UNI', '_ZNK7awkward12UnionArrayOfIajE6lengthEv', 'union'),
 }
 
 
